@@ -194,59 +194,79 @@ def program_directories(ctx, root, decoy, leg):
 
 
 def resupply(ctx, root, decoy, leg):
-    """a library that has been imported (or has failed to import) is supplied again with another definition, through register_library_factory or through
-    an appended LibraryLoader: the next import follows the definition that is current then"""
+    """a library that has been imported (or has failed to import, or was missing) is supplied again with another definition, through
+    register_library_factory or through an appended LibraryLoader: the next import follows the definition that is current then - also the import of
+    libraries that DEPEND on it ((g d) imports (g a), (g t) imports (g d)) and failed earlier only because of it"""
     versions = {"healthy": "(define-library (g a) (export va) (begin (define va 10)))", "changed": "(define-library (g a) (export va) (begin (define va 77)))",
                 "faulting": "(define-library (g a) (export va) (begin (define va no-such-variable-a)))", "selfloop": "(define-library (g a) (import (g a)) (export va) (begin (define va 10)))"}
-    want = {"healthy": ("ok", 10), "changed": ("ok", 77), "faulting": ("err", "Logic.UnboundedSymbol"), "selfloop": ("err", "Logic.LibraryImportCyclic")}
+    want = {"healthy": ("ok", 10), "changed": ("ok", 77), "faulting": ("err", "Logic.UnboundedSymbol"), "selfloop": ("err", "Logic.LibraryImportCyclic"),
+            "missing": ("err", "Logic.LibraryNotFound")}
+    dependants = [{"name": ["g", "d"], "src": "(define-library (g d) (import (g a)) (export vd) (begin (define vd va)))"},
+                  {"name": ["g", "t"], "src": "(define-library (g t) (import (g d)) (export vt) (begin (define vt vd)))"}]
+    var = {"a": "va", "d": "vd", "t": "vt"}
     jobs, meta = [], []
     os.makedirs(os.path.join(root, "empty"), exist_ok=True)
     for api in ("register", "append_loader"):
-        for k1 in versions:
+        for k1 in list(versions) + ["missing"]:
             for k2 in versions:
                 for k3 in (None, "healthy", "faulting"):
-                    seq = [k1, k2] + ([k3] if k3 else [])
-                    steps = [{"new": {"stdlib": False, "natives": False, "progdir": os.path.join(root, "empty"), "libs": [{"name": ["g", "a"], "src": versions[k1]}]}}]
-                    for i, k in enumerate(seq):
-                        if i > 0:
-                            steps.append({"it": 0, api: {"name": ["g", "a"], "src": versions[k]}})
-                        steps.append({"it": 0, "src": "(import (g a))"}); steps.append({"it": 0, "env_names": True})
-                    jobs.append({"id": "c14rs", "interps": [], "steps": steps, "fuel": 50000}); meta.append((api, seq))
+                    for targets in (["a"], ["d"], ["t"], ["d", "a"], ["t", "d"], ["a", "t"]):
+                        seq = [k1, k2] + ([k3] if k3 else [])
+                        libs = ([{"name": ["g", "a"], "src": versions[k1]}] if k1 != "missing" else []) + dependants
+                        steps = [{"new": {"stdlib": False, "natives": False, "progdir": os.path.join(root, "empty"), "libs": libs}}]
+                        for i, k in enumerate(seq):
+                            if i > 0:
+                                steps.append({"it": 0, api: {"name": ["g", "a"], "src": versions[k]}})
+                            for x in targets:
+                                steps.append({"it": 0, "src": "(import (g %s))" % x}); steps.append({"it": 0, "env_names": True})
+                        jobs.append({"id": "c14rs", "interps": [], "steps": steps, "fuel": 50000}); meta.append((api, seq, targets))
     recs = core.run_jobs(jobs, leg, timeout=900, tag="c14rs", env_extra={"__cwd": decoy})
-    for (api, seq), rec, job in zip(meta, recs, jobs):
+    for (api, seq, targets), rec, job in zip(meta, recs, jobs):
         if rec is None or "steps" not in rec:
             ctx.inconclusive_cases += 1; continue
         st = rec["steps"]
         pos = 1
-        last_ok = None
         good = True
+        inst = {}       # dependants instantiated so far -> the value they captured (an instantiated library is not evaluated again)
         for i, k in enumerate(seq):
             if i > 0:
                 if "ok" not in st[pos]:
                     ctx.violation({"what": "supplying a library again failed", "kind": "resupply", "api": api, "sequence": seq, "observed": st[pos], "dedupe": "rs-reg|" + api}, {"sequence": seq, "api": api})
                     good = False; break
                 pos += 1
-            imp, names = st[pos], st[pos + 1]; pos += 2
-            ctx.evaluations += 1
-            kind, val = core.outcome(imp)
-            wk, wv = want[k]
-            d = {"kind": "resupply", "api": api, "sequence": seq, "attempt": i, "version": k}
-            if wk == "ok":
-                kn, nv = core.outcome(names)
-                if kind != "ok" or not isinstance(nv, dict) or nv.get("va") != {"i": wv}:
-                    ctx.violation(dict(d, what="after a library was supplied again the import does not follow its current definition", expected="va = %d" % wv,
-                                       observed=(nv if kind == "ok" else val), dedupe="rs|%s|%s" % (api, k)), {"sequence": seq, "api": api})
-                    good = False; break
-                last_ok = wv
-            else:
-                if kind != "err" or not str(val.get("kind", "")).startswith(wv):
-                    ctx.violation(dict(d, what="after a library was supplied again the import does not follow its current definition", expected=wv,
-                                       observed=(val if kind != "ok" else "import succeeded"), dedupe="rs|%s|%s" % (api, k)), {"sequence": seq, "api": api})
-                    good = False; break
-            if imp.get("inprog"):
-                ctx.violation(dict(d, what="a library is still marked 'being imported' after the import returned", marks=imp["inprog"], dedupe="rs-inprog"), {"sequence": seq}); good = False; break
+            for x in targets:
+                imp, names = st[pos], st[pos + 1]; pos += 2
+                ctx.evaluations += 1
+                kind, val = core.outcome(imp)
+                wk, wv = want[k]
+                if x != "a":
+                    below = "d" if x == "t" else "a"
+                    if x in inst:
+                        wk, wv = "ok", inst[x]
+                    elif below in inst:
+                        wk, wv = "ok", inst[below]
+                    if wk == "ok":
+                        inst[x] = wv
+                        if x == "t":
+                            inst.setdefault("d", wv)
+                d = {"kind": "resupply", "api": api, "sequence": seq, "targets": targets, "attempt": i, "version": k, "imported": "(g %s)" % x}
+                if wk == "ok":
+                    kn, nv = core.outcome(names)
+                    if kind != "ok" or not isinstance(nv, dict) or nv.get(var[x]) != {"i": wv}:
+                        ctx.violation(dict(d, what="after a library was supplied again the import (of it or of a library depending on it) does not follow its current definition",
+                                           expected="%s = %d" % (var[x], wv), observed=(nv if kind == "ok" else val), dedupe="rs|%s|%s|%s" % (api, k, x)), {"sequence": seq, "api": api, "targets": targets})
+                        good = False; break
+                else:
+                    if kind != "err" or not str(val.get("kind", "")).startswith(wv):
+                        ctx.violation(dict(d, what="after a library was supplied again the import (of it or of a library depending on it) does not follow its current definition", expected=wv,
+                                           observed=(val if kind != "ok" else "import succeeded"), dedupe="rs|%s|%s|%s" % (api, k, x)), {"sequence": seq, "api": api, "targets": targets})
+                        good = False; break
+                if imp.get("inprog"):
+                    ctx.violation(dict(d, what="a library is still marked 'being imported' after the import returned", marks=imp["inprog"], dedupe="rs-inprog"), {"sequence": seq}); good = False; break
+            if not good:
+                break
         if good:
-            ctx.count("resupply_histories"); ctx.nontriv("rs|%s|%s" % (api, "/".join(seq)))
+            ctx.count("resupply_histories"); ctx.nontriv("rs|%s|%s|%s" % (api, "/".join(seq), "".join(targets)))
     ctx.legs.append("resupply")
 
 
